@@ -435,6 +435,31 @@ Proof.
 Qed.
 Print Assumptions C17_code_tables.
 
+(* the same tie, DERIVED FROM THE MODEL FUNCTION (not from tables typed into a proofs file):
+   [expand_with] on a probe declaration yields, in the order of entityNode.run, the landmark each
+   accept function defines (by its componentName literal / Sprintf format); the literal property
+   names of State / Event / the publish message / the query messages are those the accept functions
+   write; method names and base paths are the code's Sprintf formats applied; the psm parts are the
+   EntityPart constants; the implicit imports and the external references are the code's *)
+Theorem C17_code_tables_from_model :
+  landmark_names = expected_landmarks
+  /\ same_names (msg_named "FooState") (lits_of "acceptState") = true
+  /\ same_names (msg_named "FooEvent") (lits_of "acceptEvent") = true
+  /\ same_names (msg_named "FooEventMessage") (lits_of "acceptPublishTopic") = true
+  /\ svc_methods "FooQueryService" =
+       map (fun f => sprintf1 (list_ascii_of_string f) (bs "Foo")) ["%sGet"; "%sList"; "%sEvents"]%string
+  /\ (forallb (pair_in gen_implicit) implicit_imports = true /\ forallb (pair_in implicit_imports) gen_implicit = true)
+  /\ (forallb (pair_in gen_externals) (externals (expand_with sample [])) = true
+      /\ forallb (pair_in (externals (expand_with sample []))) gen_externals = true)
+  /\ (forallb (fun p => existsb (fun q => bytes_eqb (fst p) (fst q) && (snd p =? snd q)) gen_parts) model_parts = true
+      /\ forallb (fun p => existsb (fun q => bytes_eqb (fst p) (fst q) && (snd p =? snd q)) model_parts) gen_parts = true).
+Proof.
+  destruct property_names_from_model as [P1 [P2 [P3 _]]]. destruct formats_from_model as [_ [F2 _]].
+  exact (conj run_order_from_model (conj P1 (conj P2 (conj P3 (conj F2 (conj implicit_imports_agree
+        (conj model_externals_agree entity_parts_from_model))))))).
+Qed.
+Print Assumptions C17_code_tables_from_model.
+
 (* the README's documented example (re-read from README.md on every run): the declaration it
    prints expands, in the model, to every message, field, status value, rpc and path it shows *)
 Theorem C17_readme_example : readme_agrees.
